@@ -1,0 +1,29 @@
+//go:build verif
+
+package tcplistener
+
+// MultiLineReaderForVerif gives a verification harness access to the unexported multiLineReader
+type MultiLineReaderForVerif struct {
+	reader *multiLineReader
+}
+
+// NewMultiLineReaderForVerif creates a multiLineReader exactly as runConnection does
+func NewMultiLineReaderForVerif(read func(p []byte) (int, error), test func(s []byte) bool, minBufferSize, softRecordLimit int,
+	consume func(s []byte),
+) *MultiLineReaderForVerif {
+	return &MultiLineReaderForVerif{newMultiLineReader(read, test, minBufferSize, softRecordLimit, consume)}
+}
+
+// Read calls multiLineReader.Read
+func (m *MultiLineReaderForVerif) Read() error { return m.reader.Read() }
+
+// Flush calls multiLineReader.Flush
+func (m *MultiLineReaderForVerif) Flush() { m.reader.Flush() }
+
+// FlushAll calls multiLineReader.FlushAll
+func (m *MultiLineReaderForVerif) FlushAll() { m.reader.FlushAll() }
+
+// State returns offsetSearch, offsetAppend and the buffer size
+func (m *MultiLineReaderForVerif) State() (int, int, int) {
+	return m.reader.offsetSearch, m.reader.offsetAppend, len(m.reader.buffer)
+}
